@@ -1,5 +1,6 @@
+from xeng import progs, progs2, progs3
 from . import _common
 
 
 def run(out):
-    _common.run(out, 'C19', s_props=['C19'])
+    _common.run(out, 'C19', x=[dict(fn=progs3.c19_corpus, name='c19', compile_violation=True)], s_props=['C19'])
